@@ -216,7 +216,7 @@ impl ParsleyParser for IntegerP {
             false
         };
         let num_str = buf.parse_allowed_bytes(b"0123456789")?;
-        if num_str.is_empty() && (buf.peek() != Some(46)) {
+        if num_str.is_empty() {
             let end = buf.get_cursor();
             let err = ErrorKind::GuardError("not at number".to_string());
             buf.set_cursor_unsafe(start);
